@@ -319,6 +319,7 @@ let pkind_str = function
   | PAssert -> "assert" | PLibrary -> "library"
 
 let cur_env : env ref = ref []
+let reader_env : env option ref = ref None
 
 let enc_model (t : ty) (v : val0) : string * n list option =
   let fuel = nat_of_int (64 + 2 * val_size v) in
@@ -352,7 +353,21 @@ let codec_line (l : string) : string =
   let rest = String.sub l sp (String.length l - sp) in
   let sx = parse_all rest in
   match cmd, sx with
-  | "E", [e] -> cur_env := env_of_sx e; "env"
+  | "E", [e] -> cur_env := env_of_sx e; reader_env := None; "env"
+  | "E2", [e] -> reader_env := Some (env_of_sx e); "env"
+  | "xrt", [tw; v; tr; Atom sfx] ->
+      (* encode with the writer's environment and type, decode with the reader's *)
+      let tw = ty_of_sx tw and tr = ty_of_sx tr in
+      let v = val_of_sx v in
+      let wenv = !cur_env in
+      let res =
+        (match enc_model tw v with
+         | (l, None) -> l ^ " ; -"
+         | (l, Some b) ->
+             (match !reader_env with Some e -> cur_env := e | None -> ());
+             let d = dec_model ~extra:(2 * val_size v + 64) tr (b @ unhex sfx) in
+             l ^ " ; " ^ d) in
+      cur_env := wenv; res
   | "enc", [t; v] -> fst (enc_model (ty_of_sx t) (val_of_sx v))
   | "dec", [t; Atom h] -> dec_model (ty_of_sx t) (unhex h)
   | "rt", [t; v; Atom sfx] ->
